@@ -194,6 +194,13 @@ def ensure_harness(timeout=1800):
     rc, out = sh("cargo build --offline", cwd=HARNESS, timeout=timeout, env={"RUSTFLAGS": "--cfg memcrs_verif"})
     if rc != 0:
         return False, out
+    # the server binary itself (src/bin/memcrsd.rs), which the configuration profile runs
+    rc, out2 = sh("cargo build --offline --manifest-path %s --bin memcrsd --target-dir %s" % (
+        os.path.join(REPO, "memcrs", "Cargo.toml"), os.path.join(BUILD, "target")),
+        cwd=HARNESS, timeout=timeout, env={"RUSTFLAGS": "--cfg memcrs_verif"})
+    if rc != 0:
+        return False, out + out2
+    os.environ["VERIF_MEMCRSD"] = os.path.join(BUILD, "target", "debug", "memcrsd")
     rc, meta = sh([HBIN, "meta"])
     if rc != 0:
         return False, out + meta
@@ -546,7 +553,7 @@ PROPS = {
                      ("big", 1048576, None, 6, 14)], "relevant": "RSWM"},
     "C13": {"seq": [("malformed", 100, None, 60, 30), ("malformed", 64, None, 40, 30), ("cuts", 100, None, 30, 30)],
             "conn": [("malformed", 100, None, 40, 25), ("malformed", 1024, None, 20, 25), ("cuts", 64, None, 20, 25)],
-            "relevant": "RSMW"},
+            "cfg": 6, "relevant": "RSMW"},
     "C14": {"seq": [("policy", 1024, 100, 40, 60), ("policy", 1024, 300, 40, 60), ("policy", 1024, 30, 20, 60),
                     ("policy", 1024, 1000, 30, 60), ("counter", 1024, 120, 20, 50), ("flush", 1024, 200, 20, 50)],
             "conn": [("policy", 1024, 300, 15, 30)], "pol": 150, "relevant": "UMRP",
